@@ -1,11 +1,13 @@
 package ptracer
 
 import (
+	"context"
 	"time"
 
 	"golang.org/x/sys/unix"
 
 	"github.com/criyle/go-sandbox/runner"
+	"github.com/criyle/go-sandbox/zzverif/kern"
 	"github.com/criyle/go-sandbox/zzverif/sym"
 )
 
@@ -68,5 +70,62 @@ func VerifC08_PtraceLimitSignals() {
 		sym.Reach("other")
 		sym.Assert(status == runner.StatusNormal && !finished, "other signal stops do not end the run")
 		sym.Assert(contSig == int(sig), "a signal-delivery stop must be resumed with the same signal")
+	}
+}
+
+// VerifC08_TraceMeasurements: the real trace loop with symbolic bounds and a symbolic usage
+// record reported by wait4 for the main process; the event that ends the run is an arbitrary
+// wait status (exit, signal, signal-delivery stop incl. SIGXCPU / SIGXFSZ, ptrace event).
+// Whenever the run ends on an event of the main process the Result carries the measured CPU
+// time and peak memory; usage above a bound is TLE / MLE; a SIGXCPU / SIGXFSZ delivery is
+// TLE / OLE.
+func VerifC08_TraceMeasurements() {
+	kern.InstallContext()
+	const pgid = 4242
+	k := &kptrace{pgid: pgid, budget: 3, esrchAt: -1}
+	k.procs = append(k.procs, &kproc{pid: pgid, exists: true, alive: true})
+	h := &verifHandler{verdict: TraceAllow}
+	k.h = h
+	sec, usec, rss := sym.I64("ut_sec"), sym.I64("ut_usec"), sym.I64("maxrss")
+	sym.Assume(sec >= 0 && sec < (1<<33) && usec >= 0 && usec < 1000000 && rss >= 0 && rss < (1<<53))
+	k.ru = &unix.Rusage{Utime: unix.Timeval{Sec: sec, Usec: usec}, Maxrss: rss}
+	tl, ml := sym.I64("time_limit"), sym.U64("mem_limit")
+	sym.Assume(tl >= 0)
+	sym.Intercept("golang.org/x/sys/unix.Wait4", k.wait4)
+	sym.Intercept("golang.org/x/sys/unix.PtraceSetOptions", k.setOptions)
+	sym.Intercept("golang.org/x/sys/unix.PtraceCont", k.cont)
+	sym.Intercept("golang.org/x/sys/unix.Kill", k.kill)
+	sym.Intercept("github.com/criyle/go-sandbox/ptracer.ptraceGetRegSet", k.getRegs)
+	sym.Intercept("syscall.PtraceSetRegs", k.setRegsReq)
+	t := &Tracer{Handler: h, Limit: runner.Limit{TimeLimit: time.Duration(tl), MemoryLimit: runner.Size(ml)}}
+	res := t.trace(context.Background(), pgid)
+	ns := sec*1000000000 + usec*1000
+	bytes := uint64(rss) << 10
+	over := ns > tl || bytes > ml
+	if k.lastMain {
+		sym.Reach("ended-on-main-event")
+		sym.Assert(int64(res.Time) == ns && uint64(res.Memory) == bytes, "the verdict must come together with the measured CPU time and peak memory")
+	}
+	if over {
+		sym.Reach("over-bound")
+		sym.Assert(res.Status == runner.StatusTimeLimitExceeded || res.Status == runner.StatusMemoryLimitExceeded, "usage above a bound must be a limit verdict")
+		if bytes <= ml {
+			sym.Assert(res.Status == runner.StatusTimeLimitExceeded, "time above the bound must be TLE")
+		}
+		if ns <= tl {
+			sym.Assert(res.Status == runner.StatusMemoryLimitExceeded, "memory above the bound must be MLE")
+		}
+		return
+	}
+	ws := k.lastWs
+	if k.lastMain && ws&0xff == 0x7f && ws>>16 == 0 {
+		switch (ws >> 8) & 0xff {
+		case 24:
+			sym.Reach("xcpu-stop")
+			sym.Assert(res.Status == runner.StatusTimeLimitExceeded, "a SIGXCPU delivery must be Time Limit Exceeded")
+		case 25:
+			sym.Reach("xfsz-stop")
+			sym.Assert(res.Status == runner.StatusOutputLimitExceeded, "a SIGXFSZ delivery must be Output Limit Exceeded")
+		}
 	}
 }
